@@ -38,7 +38,8 @@ def with_want(scens, want):
 
 
 def fam_general(rng, tier):
-    return (gen.fam_fixed(rng, n(tier, 60, 400)) + gen.fam_stream(rng, n(tier, 150, 1500)) + gen.fam_garbage(rng, n(tier, 80, 600)))
+    return (gen.fam_fixed(rng, n(tier, 60, 400)) + gen.fam_stream(rng, n(tier, 150, 1500)) + gen.fam_garbage(rng, n(tier, 80, 600)) +
+            gen.fam_orphan(rng, n(tier, 60, 500)))
 
 
 def fam_fixed_all(rng, tier):
